@@ -81,7 +81,8 @@ class Net:
         i = len(self.arrs)
         # packet ids are numbered per flow (as real generators do), so they say nothing about arrival order across flows
         self.per_flow[flow] = self.per_flow.get(flow, 0) + 1
-        pkt = Packet(env.now, size, self.per_flow[flow], src=src, flow_id=flow, payload=payload)
+        # created one second before it reaches the element (creation time is not arrival time)
+        pkt = Packet(env.now - 1, size, self.per_flow[flow], src=src, flow_id=flow, payload=payload)
         self.seq += 1
         a = Arr(i, self.seq, env.now, self.step, flow, size, pkt)
         self.arrs.append(a)
